@@ -45,7 +45,7 @@ class Job:
         self.owners = owners or {}      # class -> [property ids]; classes: 'post:<tag>', 'safety', 'assigns', 'loop', 'assert:<tag>'
         self.clause_map = clause_map or {}   # line number in harness TU -> tag
         self.timeout = timeout
-        self.solver = solver            # None (minisat) | 'kissat' | 'cadical'
+        self.solver = solver            # None/'kissat' (default) | 'minisat' | 'cadical'
         self.extra_cbmc = list(extra_cbmc)
         self.extra_cc = list(extra_cc)
         self.canary = canary
@@ -218,6 +218,18 @@ def loops_of(show_loops_text, func):
 
 
 def run_job(job, workroot, keep=False):
+    """Runs one obligation; if CBMC runs out of object identifiers (default 2^8 objects) the
+    run is repeated with more object bits."""
+    res = _run_job_once(job, workroot, keep)
+    tries = 0
+    while res.status == 'undecided' and 'too many addressed objects' in res.reason and tries < 2:
+        tries += 1
+        job.obj_bits = 12 if (job.obj_bits or 8) < 12 else 16
+        res = _run_job_once(job, workroot, keep)
+    return res
+
+
+def _run_job_once(job, workroot, keep=False):
     res = JobResult(job)
     t0 = time.time()
     wd = os.path.join(workroot, job.ident())
@@ -323,7 +335,8 @@ def run_job(job, workroot, keep=False):
         cb += ['--unwindset', job.unwindset, '--unwinding-assertions']
     if job.obj_bits:
         cb += ['--object-bits', str(job.obj_bits)]
-    if job.solver == 'kissat':
+    # kissat is the default back end: MiniSat's run time on the larger obligations varies by two orders of magnitude
+    if job.solver in (None, 'kissat'):
         cb += ['--external-sat-solver', 'kissat']
     elif job.solver == 'cadical':
         cb += ['--sat-solver', 'cadical']
